@@ -117,7 +117,7 @@ func loadProgram(dir string) (*Program, error) {
 		funcs: map[string]*FuncInfo{}, byObj: map[*types.Func]*FuncInfo{}, ext: map[string]*SpecInfo{},
 		fspec: map[string]*SpecInfo{}, lemmas: map[string]*SpecInfo{}, pure: map[*types.Func]*FuncInfo{},
 		ghost: map[*types.Func]bool{}, heapSorts: map[string]Sort{},
-		interior: map[string]bool{"List.root": true}, monitors: map[string][]monitor{}, mapValsNonNil: map[string]bool{},
+		interior: map[string]bool{"List.root": true}, monitors: map[string][]monitor{}, mapValsNonNil: map[string]bool{"map[K]*call": true},
 	}
 	var errs []string
 	for _, pk := range pkgs {
